@@ -1734,8 +1734,28 @@ fn resolve_names_typ(
             } else {
                 resolve_identifier(ctx, symbol_table, name);
             }
-            if let Some(decl) = ctx.resolution_map.get(&name.id) {
-                ctx.resolution_map.insert(typ.id, decl.clone());
+            if let Some(decl) = ctx.resolution_map.get(&name.id).cloned() {
+                let expected_nargs = match &decl {
+                    Declaration::BuiltinType(BuiltinType::Array | BuiltinType::Channel) => Some(1),
+                    Declaration::Struct(struct_def) => Some(struct_def.ty_args.len()),
+                    Declaration::Enum(enum_def) => Some(enum_def.ty_args.len()),
+                    _ => None,
+                };
+                if expected_nargs.is_some_and(|n| n != args.len()) {
+                    ctx.errors.push(Error::GenericWithNode {
+                        msg: format!(
+                            "Type `{}` takes {} type argument(s) but {} were given",
+                            name.v,
+                            expected_nargs.unwrap(),
+                            args.len()
+                        ),
+                        node: typ.node(),
+                    });
+                    // leave the annotation unresolved, like an unknown type name
+                    ctx.resolution_map.remove(&name.id);
+                } else {
+                    ctx.resolution_map.insert(typ.id, decl);
+                }
             }
 
             for arg in args {
